@@ -21,5 +21,20 @@ def run(tier, seed, t0):
 
 
 def replay(path):
-    print("C17 cases are deterministic; re-run ./vcheck C17")
-    sys.exit(2)
+    w = appcommon.build()
+    import json
+    tier = json.load(open(path)).get("tier", "quick")  # the enumeration (strides, pacing pattern) depends on the tier
+    out = vlib.run_worker(w, ["-replay", path, "-tier", tier], 900, env={"VERIF_WORKER": "c17"})
+    if "error" in out:
+        raise vlib.HarnessError(out["error"])
+    r = out["results"][0]
+    vs = r.get("violations") or []
+    for v in vs:
+        print("  key=%s: %s" % (v["key"], v["what"][:400]))
+    if r.get("evaluations", 0) < 1:
+        raise vlib.HarnessError("replay: the recorded case was not found in the enumeration (%d cases ran)" % r.get("evaluations", 0))
+    if vs:
+        print("VIOLATION property=%s replay=%s" % (PID, path))
+        sys.exit(1)
+    print("replay: no violation")
+    sys.exit(0)
